@@ -1,5 +1,6 @@
 import HttpcoreModel.Drv.Common
 import HttpcoreModel.H1Obs
+import HttpcoreModel.H1Render
 namespace Httpcore.Drv
 open Httpcore Httpcore.H1
 
@@ -61,6 +62,16 @@ def h1leading (args : List String) : String :=
       let o := observe r.1.1
       s!"head={showHead o.head} state={showSt r.1.2.1} leading={hexOfBytes r.1.2.2} unread={r.2.length} outcome={showOutcome o.outcome}"
     | none => "bad-args"
+  | _ => "bad-args"
+
+/-- `h1head <a> <b> <d1> <d2> <d3> <reason hex|-> <headers>`: is this head well-formed, and the bytes a server sends for it -/
+def h1head (args : List String) : String :=
+  match args with
+  | [a, b, d1, d2, d3, r, hs] =>
+    match a.toNat?, b.toNat?, d1.toNat?, d2.toNat?, d3.toNat?, bytesOfHex (if r = "-" then "" else r), parseHeaders hs with
+    | some a, some b, some d1, some d2, some d3, some r, some hs =>
+      s!"wf={if C02H.wellFormedB a b d1 d2 d3 r hs then 1 else 0} render={hexOfBytes (C02H.renderHead a b d1 d2 d3 r hs)}"
+    | _, _, _, _, _, _, _ => "bad-args"
   | _ => "bad-args"
 
 end Httpcore.Drv
